@@ -54,7 +54,7 @@ ASSUMPTIONS = ["node functions are deterministic and raise iff an argument is ne
                "the cache key of a composite is reset by loading (children are re-adopted); not compared between memory and file",
                "checkpoint protocol read from the statement: same as for a recovery file (fix, clear failure flags, run); "
                "clearing `running` is NOT part of it -- see known findings S19 (refused) and S28 (file cannot be loaded)",
-               "every run is given 10 s (SIGALRM); a run that does not end is reported as TIMEOUT"]
+               "every run is given 10 s (SIGALRM; 1 s once five runs of the process have hung); a run that does not end is reported as TIMEOUT"]
 
 from pyiron_workflow.nodes.function import as_function_node  # noqa: E402
 from pyiron_workflow.nodes.macro import as_macro_node  # noqa: E402
@@ -407,17 +407,21 @@ def _alarm(signum, frame):
     raise _Timeout()
 
 
+_TIMEOUTS = [0]     # runs of this process that did not end (after five of them the others get 1 s instead of 10 s)
+
+
 def _verdict(fn):
     """run fn; the class of what it raised (a run that does not end within 10 s is reported as such)"""
     import signal
     from pyiron_workflow.mixin.run import ReadinessError
     from pyiron_workflow.nodes.composite import FailedChildError
     old = signal.signal(signal.SIGALRM, _alarm)
-    signal.alarm(10)
+    signal.alarm(10 if _TIMEOUTS[0] < 5 else 1)     # a tree on which runs hang must not stall the whole check
     try:
         fn()
         return "ok"
     except _Timeout:
+        _TIMEOUTS[0] += 1
         return "TIMEOUT"
     except nodes.UserInterrupt:      # a KeyboardInterrupt raised by a node function: must not take the check down
         return "KeyboardInterrupt"
